@@ -123,6 +123,28 @@ def gen_request(rng: Any, keys: dict[str, tuple[bytes, str]], origin: str, skew:
     nonce = pu.rand_urlsafe(rng, 22)
     mac = pu.spec_b64url_encode(pu.spec_mac(secret, kid, ts, nonce, origin))
     tag = f"off:{'0' if off == 0 else ('in' if abs(off) <= skew else 'out')}"
+    if rng.random() < 0.06:
+        # a field spelled in a non-ASCII script and MAC'd consistently over that spelling: the charsets of §3 are
+        # ASCII, so the table says malformed whoever signed it (known or unknown kid, inside or outside the window)
+        which = rng.choice(["ts", "ts", "ts", "kid", "nonce"])
+        if which == "ts":
+            script = rng.choice(list(DIGIT_SCRIPTS))
+            z = DIGIT_SCRIPTS[script]
+            how = rng.choice(["all", "one", "last"])
+            idx = set(range(len(ts))) if how == "all" else {rng.randrange(len(ts))} if how == "one" else {len(ts) - 1}
+            ts = "".join(chr(z + int(c)) if i in idx else c for i, c in enumerate(ts))
+            what = f"ts:unicode-digits:{script}"
+        elif which == "kid":
+            kid = (kid[:-1] if len(kid) > 1 else "") + rng.choice(["é", "ß", "я", "名", "²", "٣"])
+            what = "kid:unicode-word"
+        else:
+            i = rng.randrange(22)
+            nonce = nonce[:i] + rng.choice(["é", "я", "名", "٣", "Ａ"]) + nonce[i + 1:]
+            what = "nonce:unicode-word"
+        if which != "kid" and rng.random() < 0.3:
+            kid = pu.rand_urlsafe(rng, 5)  # and the same spelling under a kid the worker does not know
+        mac = pu.spec_b64url_encode(pu.spec_mac(secret, kid, ts, nonce, origin))
+        return [".".join(["v1", kid, ts, nonce, mac])], what
     fields = ["v1", kid, ts, nonce, mac]
     m = rng.random()
     if m < 0.42:
@@ -188,6 +210,23 @@ def gen_request(rng: Any, keys: dict[str, tuple[bytes, str]], origin: str, skew:
     return [rng.choice([" " + tok, tok + " ", tok + "\n", "\n" + tok, tok + "\x00", tok.upper(), tok + ".", "." + tok, " ", "\t"])], "whitespace"
 
 
+# zero code point of some Unicode decimal-digit runs (`\\d` and `int()` accept all of them; §3 says `[0-9]`)
+DIGIT_SCRIPTS = {"arabic-indic": 0x0660, "ext-arabic": 0x06F0, "devanagari": 0x0966, "bengali": 0x09E6, "thai": 0x0E50,
+                 "fullwidth": 0xFF10, "math-bold": 0x1D7CE}
+
+
+def unicode_digit_tokens() -> list[tuple[str, str]]:
+    """hand-written first: every script x {known kid with a consistent MAC, unknown kid} at the corpus clock"""
+    out = []
+    secret = bytes(range(32))
+    for n, (script, z) in enumerate(DIGIT_SCRIPTS.items()):
+        for spelled in ("".join(chr(z + int(c)) for c in str(NOW0)), str(NOW0)[:-1] + chr(z + int(str(NOW0)[-1]))):
+            for kid in ("k", "stranger"):
+                nonce = ("U%021d" % (len(out)))[:22]
+                out.append((f"ts:unicode-digits:{script}", pu.spec_mint(secret, kid, spelled, nonce, "worker-a")))
+    return out
+
+
 CORPUS_VALUES = [
     "garbage", "v1.a.b.c", "v1.a.b.c.d.e", "v2.k.1.AAAAAAAAAAAAAAAAAAAAAA." + "A" * 43, "v1.bad!kid.1.AAAAAAAAAAAAAAAAAAAAAA." + "A" * 43,
     "v1.k.notanumber.AAAAAAAAAAAAAAAAAAAAAA." + "A" * 43, "v1.k.1.short." + "A" * 43, "v1.k.1.AAAAAAAAAAAAAAAAAAAAAA." + "A" * 42,
@@ -209,7 +248,16 @@ def k_regex(ctx: Any) -> None:
     import vgi_rpc.http._proof as P
 
     rng = ctx.rng
-    pats = {"kid": P._KID_RE, "ts": P._TS_RE, "nonce": P._NONCE_RE, "origin": P._ORIGIN_RE, "mac": P._MAC_RE}
+    pats = {}
+    for w, attr in (("kid", "_KID_RE"), ("ts", "_TS_RE"), ("nonce", "_NONCE_RE"), ("origin", "_ORIGIN_RE"), ("mac", "_MAC_RE")):
+        rx = getattr(P, attr, None)
+        if rx is None:
+            ctx.mismatch({"k": "re", "which": w}, "extracted pattern", f"vgi_rpc.http._proof has no {attr}",
+                         f"{attr}: the per-field regex the model mirrors no longer exists")
+        else:
+            pats[w] = rx
+    if not pats:
+        return
     lens = {"kid": [0, 1, 2, 63, 64, 65], "ts": [0, 1, 19, 20, 21], "nonce": [21, 22, 23], "origin": [0, 1, 254, 255, 256], "mac": [42, 43, 44]}
     alpha = {"kid": pu.B64_ALPHABET, "ts": "0123456789", "nonce": pu.B64_ALPHABET, "origin": pu.B64_ALPHABET + "._:/", "mac": pu.B64_ALPHABET}
     cases: list[tuple[str, str]] = []
@@ -513,6 +561,8 @@ def corpus_sessions() -> list[dict[str, Any]]:
             reqs.append({"vals": [""], "sep": ",", "now": NOW0, "mono": 0, "tag": "empty"})
             for v in CORPUS_VALUES:
                 reqs.append({"vals": [v], "sep": ",", "now": NOW0, "mono": mono, "tag": "corpus"})
+            for tag, v in unicode_digit_tokens():
+                reqs.append({"vals": [v], "sep": ",", "now": NOW0, "mono": mono, "tag": tag})
             # the window edges, exactly, and a replay of each accepted token
             for off in (0, 29, 30, 31, -29, -30, -31):
                 tok = pu.spec_mint(secret, "k", NOW0 + off, "N" * 21 + str(abs(off) % 10), "worker-a")
@@ -615,14 +665,21 @@ def wsgi_uniform(ctx: Any) -> None:
 # ------------------------------------------------------------------------------------------ run / replay
 
 
+def _guarded(ctx: Any, name: str, fn: Any) -> None:
+    """A K helper reaches into private names of the implementation (`_TS_RE`, `_unb64`, …). If the source was
+    restructured so that one of them is gone, that is a broken correspondence — never a reason to skip the
+    failing-input search, which only needs the public verifier."""
+    try:
+        fn(ctx)
+    except Exception as e:  # noqa: BLE001
+        ctx.mismatch({"k": name}, "model piece present", f"{type(e).__name__}: {e}"[:300],
+                     f"{name}: the implementation piece the model mirrors is unreachable")
+
+
 def run(ctx: Any) -> None:
     rng = ctx.rng
     with pu.quiet_proof_logger():
-        if ctx.driver is not None:
-            k_regex(ctx)
-        k_base64(ctx)
-        k_canonical(ctx)
-        k_cache(ctx)
+        # the table oracle (O) needs nothing but the public gate / verify_proof: it runs first
         for sess in corpus_sessions():
             run_session(ctx, sess)
         n_req = ctx.budget(20000, 350000)
@@ -633,7 +690,12 @@ def run(ctx: Any) -> None:
             k = rng.choice([8, 16, 24])
             run_session(ctx, gen_session(rng, k))
             done += k
-        wsgi_uniform(ctx)
+        _guarded(ctx, "wsgi_uniform", wsgi_uniform)
+        if ctx.driver is not None:
+            _guarded(ctx, "k_regex", k_regex)
+        _guarded(ctx, "k_base64", k_base64)
+        _guarded(ctx, "k_canonical", k_canonical)
+        _guarded(ctx, "k_cache", k_cache)
 
 
 def replay(ctx: Any, case: dict[str, Any]) -> None:
